@@ -37,6 +37,29 @@ fn frame_opts(src: [u8; 4], dst: [u8; 4], sport: u16, dport: u16, seq: u32, flag
 }
 
 /// payload of segment i of a connection of the given kind
+const MARK: &str = "@#@#@#@#";
+
+/// every marker of a payload replaced by eight hexadecimal digits that name the connection and the segment
+fn personalise(p: &[u8], c: usize, i: usize) -> Vec<u8> {
+    let m = MARK.as_bytes();
+    if p.len() < m.len() || !p.windows(m.len()).any(|w| w == m) {
+        return p.to_vec();
+    }
+    let tag = format!("{:05x}{:03x}", c & 0xfffff, i & 0xfff);
+    let mut out = Vec::with_capacity(p.len());
+    let mut k = 0;
+    while k < p.len() {
+        if p[k..].starts_with(m) {
+            out.extend_from_slice(tag.as_bytes());
+            k += m.len();
+        } else {
+            out.push(p[k]);
+            k += 1;
+        }
+    }
+    out
+}
+
 fn payload(kind: &str, i: usize, len: usize, x: &mut u64) -> Vec<u8> {
     let mut rnd = || {
         *x ^= *x << 13;
@@ -112,6 +135,15 @@ fn payload(kind: &str, i: usize, len: usize, x: &mut u64) -> Vec<u8> {
             }
             s
         }
+        // a complete request / response head in one segment whose values are different on every connection and in every segment: the
+        // eight-character marker is replaced per (connection, segment) when the packet is built
+        "http_unique_req" => format!(
+            "GET /u/{m} HTTP/1.1\r\nHost: h{m}.example\r\nUser-Agent: agent-{m}/1.0 (X11; {m})\r\nAccept: text/{m}\r\nAccept-Language: x-{m};q=0.9, en-{m};q=0.8, {}\r\nCookie: id={m}; s{m}=1\r\nReferer: http://r.example/{m}\r\nX-{m}: {m}\r\n\r\n",
+            (0..24).map(|k| format!("l{k}-{m};q=0.{k}", m = MARK)).collect::<Vec<_>>().join(", "),
+            m = MARK
+        )
+        .into_bytes(),
+        "http_unique_resp" => format!("HTTP/1.1 200 OK\r\nServer: srv-{m}\r\nContent-Type: text/{m}\r\nSet-Cookie: id={m}\r\nX-{m}: {m}\r\nContent-Length: 0\r\n\r\n", m = MARK).into_bytes(),
         "bytes_b" => vec![b'b'; len],
         "zeros" => vec![0u8; len],
         k => panic!("kind {k}"),
@@ -180,13 +212,18 @@ pub fn run(input: &mut dyn BufRead, out: &mut dyn Write, _args: &[String]) -> R 
             let total_steps: usize = steps.iter().map(|s| s.n).sum();
             // what the harness itself keeps (the recorded events) is not the analyzer's: measured around every push and subtracted
             let mut own = 0usize;
-            let mut feed = |plan: &mut Vec<(bool, Vec<u8>, u32, u8)>, events: &mut Vec<Value>, maxima: &mut (usize, usize), idx: &mut usize| -> bool {
+            // "serial": one connection after the other, each from its SYN to its last segment (otherwise segment k of every connection
+            // precedes segment k+1 of any)
+            let serial = v["serial"].as_bool().unwrap_or(false);
+            let mut conn_range = (0usize, nconn);
+            let mut feed = |plan: &mut Vec<(bool, Vec<u8>, u32, u8)>, events: &mut Vec<Value>, maxima: &mut (usize, usize), idx: &mut usize, conn_range: (usize, usize)| -> bool {
                 for (server, p, seq, flags) in plan.drain(..) {
                     let i = *idx;
-                    for c in 0..nconn {
+                    for c in conn_range.0..conn_range.1 {
                         let (cip, sip) = ([10, 70, (c >> 8) as u8, c as u8], [10, 80, 0, 1]);
                         let cp = 20000 + (c % 40000) as u16;
                         let opts = if with_ts { ts_opts(flags & 0x02 != 0, 100_000 + (c as u32) * 7 + (i as u32)) } else { vec![] };
+                        let p = personalise(&p, c, i);
                         let f = if server { frame_opts(sip, cip, sp, cp, seq, flags, &opts, &p, (i * nconn + c) as u16) } else { frame_opts(cip, sip, cp, sp, seq, flags, &opts, &p, (i * nconn + c) as u16) };
                         let flen = f.len();
                         let before_total = crate::alloc_count::total();
@@ -223,7 +260,37 @@ pub fn run(input: &mut dyn BufRead, out: &mut dyn Write, _args: &[String]) -> R 
                 }
                 true
             };
-            let mut go = feed(&mut plan, &mut events, &mut maxima, &mut idx);
+            if serial {
+                // the whole plan of a connection first, then connection after connection
+                for st in &steps {
+                    for k in 0..st.n {
+                        let p = match &st.hex {
+                            Some(h) => h.clone(),
+                            None => payload(&st.kind, k, st.len, &mut gen_seed),
+                        };
+                        let seq = if st.server { sseq } else { cseq };
+                        if !st.retx {
+                            if st.server {
+                                sseq = sseq.wrapping_add(p.len() as u32);
+                            } else {
+                                cseq = cseq.wrapping_add(p.len() as u32);
+                            }
+                        }
+                        plan.push((st.server, p, seq, 0x18));
+                    }
+                }
+                let full = plan.clone();
+                for c in 0..nconn {
+                    conn_range = (c, c + 1);
+                    let mut pl = full.clone();
+                    idx = 0;
+                    if !feed(&mut pl, &mut events, &mut maxima, &mut idx, conn_range) {
+                        break;
+                    }
+                }
+                return json!({"events": events, "max_retained": maxima.0, "max_allocated": maxima.1, "wall_ms": t0.elapsed().as_millis() as u64});
+            }
+            let mut go = feed(&mut plan, &mut events, &mut maxima, &mut idx, conn_range);
             'outer: for st in &steps {
                 for k in 0..st.n {
                     if !go {
@@ -242,7 +309,7 @@ pub fn run(input: &mut dyn BufRead, out: &mut dyn Write, _args: &[String]) -> R 
                         }
                     }
                     plan.push((st.server, p, seq, 0x18));
-                    go = feed(&mut plan, &mut events, &mut maxima, &mut idx);
+                    go = feed(&mut plan, &mut events, &mut maxima, &mut idx, conn_range);
                 }
             }
             let _ = seed;
